@@ -43,7 +43,7 @@ Lemma report_is_rule b q :
   wf b = true -> b_global b = false ->
   report b false q = option_map (mk_rep b) (rule b q).
 Proof.
-  destruct b as [k own par nm md g gs ln cl]. simpl. intros Hwf Hg. subst g.
+  destruct b as [k own par nm md g gs sc ln cl]. simpl. intros Hwf Hg. subst g.
   unfold report, rule, local_of_function, method_parameter, import_at_module_or_class_level,
     parent_is_class, wf in *. simpl in *.
   destruct (starts_underscore nm) eqn:Hu;
@@ -76,7 +76,7 @@ Lemma report_never b u q :
    \/ (is_argument (b_kind b) = true /\ b_parent b = Some SClass)) ->
   report b u q = None.
 Proof.
-  destruct b as [k own par nm md g gs ln cl]. simpl.
+  destruct b as [k own par nm md g gs sc ln cl]. simpl.
   unfold report, parent_is_class. simpl. destruct u; [reflexivity|].
   intros [H|[H|[[H1 H2]|[[H1 H2]|[H1 H2]]]]].
   - rewrite H. reflexivity.
@@ -125,15 +125,38 @@ Proof.
       * intros [H|[H|H]]; [left; exact H | discriminate H | right; exact H].
 Qed.
 
+(* the `scope` attribute of a plain name object is the scope that owns its binding
+   (Flow.add_name: name.scope = self.scope) *)
+Definition scope_attr_ok (bs : list binding) (r : read) : Prop :=
+  forall s alts i b, In (Some s, alts) (rd_visible r) -> In (ABind i) alts ->
+                     nth_error bs i = Some b -> b_scope b = s.
+
+Lemma mark_scope_In s vis : forall u i,
+  In i (mark_scope s vis u) -> In i u \/ exists alts, In (Some s, alts) vis /\ In (ABind i) alts.
+Proof.
+  induction vis as [|[[s'|] alts] r IH]; intros u i; simpl.
+  - intros H. left. exact H.
+  - intros H. destruct (IH _ _ H) as [H1|[a [Hin Ha]]].
+    + destruct (Nat.eqb s' s) eqn:E.
+      * apply mark_In in H1. destruct H1 as [H1|H1]; [left; exact H1|].
+        apply Nat.eqb_eq in E. subst s'. right. exists alts. split; [left; reflexivity | exact H1].
+      * left. exact H1.
+    + right. exists a. split; [right; exact Hin | exact Ha].
+  - intros H. destruct (IH _ _ H) as [H1|[a [Hin Ha]]].
+    + left. exact H1.
+    + right. exists a. split; [right; exact Hin | exact Ha].
+Qed.
+
 Lemma step_marks st r i :
   In i (fst (step st r)) ->
   In i (fst st) \/
   (exists alts, rd_row r = Some alts /\ rd_locals r = false /\ In (ABind i) alts) \/
-  (rd_locals r = true).
+  (rd_locals r = true /\ exists alts, In (Some (rd_scope r), alts) (rd_visible r) /\ In (ABind i) alts).
 Proof.
   unfold step. destruct (rd_row r) as [alts|]; [|left; assumption].
   destruct (rd_locals r) eqn:Hl; simpl.
-  - intros _. right. right. reflexivity.
+  - intros H. destruct (mark_scope_In _ _ _ _ H) as [H1|H1]; [left; exact H1|].
+    right. right. split; [reflexivity | exact H1].
   - rewrite mark_In. intros [H|H]; [left; exact H|].
     right. left. exists alts. repeat split; assumption.
 Qed.
@@ -152,7 +175,8 @@ Lemma fold_marks reads : forall st i,
   In i (fst st) \/
   exists r, In r reads /\
     ((exists alts, rd_row r = Some alts /\ rd_locals r = false /\ In (ABind i) alts)
-     \/ rd_locals r = true).
+     \/ (rd_locals r = true /\
+         exists alts, In (Some (rd_scope r), alts) (rd_visible r) /\ In (ABind i) alts)).
 Proof.
   induction reads as [|r rs IH]; intros st i; simpl.
   - intros H. left. exact H.
@@ -176,9 +200,10 @@ Proof.
     + right. exists r'. split; [right; exact Hin | exact H1].
 Qed.
 
-(* no read of the identifier 'locals' (hypothesis no_locals_call, syntactic) *)
-Definition no_locals_read (reads : list read) : Prop :=
-  forall r, In r reads -> rd_id r <> locals_name.
+(* no read of the identifier 'locals' in the binding's own scope (hypothesis no_locals_call,
+   syntactic): locals() calls in OTHER scopes are allowed *)
+Definition no_locals_in_scope (b : binding) (reads : list read) : Prop :=
+  forall r, In r reads -> rd_id r = locals_name -> rd_scope r <> b_scope b.
 
 (* the identifier of b is never loaded *)
 Definition unread (b : binding) (reads : list read) : Prop :=
@@ -188,17 +213,19 @@ Definition unread (b : binding) (reads : list read) : Prop :=
    never put into qualified_imports *)
 Lemma unread_not_used bs reads i b :
   nth_error bs i = Some b ->
-  (forall r, In r reads -> row_keyed bs r /\ locals_keyed r) ->
-  no_locals_read reads ->
+  (forall r, In r reads -> row_keyed bs r /\ locals_keyed r /\ scope_attr_ok bs r) ->
+  no_locals_in_scope b reads ->
   unread b reads ->
   mem_nat i (fst (usage reads)) = false /\ mem_name (b_name b) (snd (usage reads)) = false.
 Proof.
   intros Hb Hkey Hnl Hun. unfold usage. split.
   - destruct (mem_nat i _) eqn:E; [|reflexivity]. exfalso.
-    apply mem_nat_In in E. destruct (fold_marks _ _ _ E) as [H|[r [Hin [[alts [Hr [_ Ha]]]|Hl]]]].
+    apply mem_nat_In in E.
+    destruct (fold_marks _ _ _ E) as [H|[r [Hin [[alts [Hr [_ Ha]]]|[Hl [alts [Hv Ha]]]]]]].
     + exact H.
     + destruct (Hkey r Hin) as [Hk _]. apply (Hun r Hin). symmetry. exact (Hk alts i b Hr Ha Hb).
-    + destruct (Hkey r Hin) as [_ Hk]. exact (Hnl r Hin (Hk Hl)).
+    + destruct (Hkey r Hin) as [_ [Hk Hs]].
+      apply (Hnl r Hin (Hk Hl)). symmetry. exact (Hs _ alts i b Hv Ha Hb).
   - destruct (mem_name _ _) eqn:E; [|reflexivity]. exfalso.
     apply mem_name_In in E. destruct (fold_qual _ _ _ E) as [H|[r [Hin Heq]]].
     + exact H.
@@ -267,8 +294,8 @@ Qed.
 Lemma unread_reported_iff_rule bs reads i b :
   nth_error bs i = Some b ->
   wf b = true -> in_domain b = true ->
-  (forall r, In r reads -> row_keyed bs r /\ locals_keyed r) ->
-  no_locals_read reads ->
+  (forall r, In r reads -> row_keyed bs r /\ locals_keyed r /\ scope_attr_ok bs r) ->
+  no_locals_in_scope b reads ->
   unread b reads ->
   forall x, In (i, x) (lint_unused bs reads) <-> exists w, rule b false = Some w /\ x = mk_rep b w.
 Proof.
@@ -315,12 +342,12 @@ Proof. unfold lint_unused. apply report_loop_NoDup. Qed.
 
 (* `global os` / `import os` at module level: import at module level, never read, not reported *)
 Definition k3_binding : binding :=
-  mkB KImport SModule None [111; 115]%N [111; 115]%N true true 2 7.
+  mkB KImport SModule None [111; 115]%N [111; 115]%N true true 0 2 7.
 
 (* `def f(): import os; global os`: CPython accepts it and os is a global of the module; supp sees a
    local of f (the declaration comes too late for Flow.add_name) and reports W01 *)
 Definition k3b_binding : binding :=
-  mkB KImport SFunction (Some SModule) [111; 115]%N [111; 115]%N true false 2 11.
+  mkB KImport SFunction (Some SModule) [111; 115]%N [111; 115]%N true false 1 2 11.
 
 Lemma k3b_refutes :
   wf k3b_binding = true /\ rule k3b_binding false = None /\
